@@ -67,9 +67,30 @@ fn with_scratch<T>(f: impl FnOnce(&Scratch) -> T) -> T {
 }
 
 pub fn judge(argv: &[String], stdin: &[u8], stdout: &StdoutKind, acc: &mut Acc) {
+    judge_delivery(argv, stdin, &[], stdout, acc)
+}
+
+/// `cuts`: if not empty, standard input arrives in bursts cut at these offsets,
+/// with a pause after each burst (the expected outcome does not depend on it).
+pub fn judge_delivery(argv: &[String], stdin: &[u8], cuts: &[usize], stdout: &StdoutKind, acc: &mut Acc) {
     acc.evals += 1;
     let class = climodel::classify(argv);
-    let out = with_scratch(|sc| procmon::run(Run { bin: &procmon::release_bin(), argv: argv.to_vec(), cwd: sc.path(), stdin: StdinKind::Bytes(stdin.to_vec()), stdout: stdout.clone(), wall_secs: 60, cpu_secs: 20 }));
+    let stdin_kind = if cuts.is_empty() {
+        StdinKind::Bytes(stdin.to_vec())
+    } else {
+        let mut bursts = vec![];
+        let mut at = 0;
+        for c in cuts.iter().copied().chain([stdin.len()]) {
+            let c = c.min(stdin.len());
+            if c > at {
+                bursts.push(stdin[at..c].to_vec());
+                at = c;
+            }
+        }
+        acc.count("stdin_delivered_in_bursts");
+        StdinKind::Bursts(bursts, 25)
+    };
+    let out = with_scratch(|sc| procmon::run(Run { bin: &procmon::release_bin(), argv: argv.to_vec(), cwd: sc.path(), stdin: stdin_kind, stdout: stdout.clone(), wall_secs: 60, cpu_secs: 20 }));
     if matches!(out.status, procmon::Status::Timeout | procmon::Status::SpawnError(_)) {
         acc.inconclusive += 1;
         acc.count("process_inconclusive");
@@ -122,7 +143,7 @@ pub fn judge(argv: &[String], stdin: &[u8], stdout: &StdoutKind, acc: &mut Acc) 
         };
         acc.violation(Violation {
             sig: format!("{}: {}", sig_class, ev::truncate(&crate::c02_mask(&e), 80)),
-            case: json!({"argv": argv, "stdin_hex": hex(stdin), "stdout": format!("{stdout:?}")}),
+            case: json!({"argv": argv, "stdin_hex": hex(stdin), "stdin_cuts": cuts, "stdout": format!("{stdout:?}")}),
             observed: format!("{e}; status {}, stdout [{}], stderr [{}]", out.status.show(), preview(&out.stdout, 100), preview(&out.stderr, 160)),
             expected: format!("model class {:?}", class),
         });
@@ -197,11 +218,54 @@ pub fn run(ctx: &Ctx) -> i32 {
     });
     let mut acc = acc;
     acc.merge(pair_acc);
-    let rule = format!("EVERY argument vector of length 0..={} over a {}-token vocabulary (-f/-t with every name and alias in attached, detached and '=' forms, repeated, missing value, invalid name; unknown short/long options; -h --help -V --version and clustered/valued forms; '--'; '-'; translatable / malformed / undetectable / unrepresentable / missing / directory / empty paths) plus {} random vectors of length 3-6 and every ordered pair of translatable inputs x every target; each run with a pipe and (rotating) a file, a pseudo-terminal or /dev/full as stdout, stdin content rotating over translatable / malformed / empty; distinct non-trivial = distinct argument vectors", exhaustive_len, v, n_random);
+    // standard input that trickles in: multi-document streams (complete, and with a malformed or
+    // unrepresentable later part) cut into 2-4 bursts at and inside document boundaries
+    let streams: Vec<(&str, Vec<u8>)> = vec![
+        ("yaml", b"a: 1\n---\nb: 2\n---\nc: [3, 4]\n---\nd: end\n".to_vec()),
+        ("yaml", b"- one\n- two\n---\n- three\n---\n{unclosed: [\n".to_vec()),
+        ("yaml", b"k: v\n---\nl: w\n---\n? [composite]\n: key\n".to_vec()),
+        ("json", b"{\"a\": 1}\n{\"b\": 2}\n{\"c\": [3, 4]}\n".to_vec()),
+        ("json", b"{\"a\": 1}\n{\"b\": 2}\n{\"c\": [3, \n".to_vec()),
+        ("json", b"[1]\n[2]\n[nul]\n".to_vec()),
+        ("msgpack", vec![0x81, 0xa1, b'a', 0x01, 0x81, 0xa1, b'b', 0x02, 0x92, 0x03, 0x04]),
+        ("msgpack", vec![0x81, 0xa1, b'a', 0x01, 0x81, 0xa1, b'b', 0x02, 0x92, 0x03]),
+        ("yaml", { let mut v = b"big: |\n".to_vec(); for i in 0..900 { v.extend_from_slice(format!("  line {i} of a long block scalar\n").as_bytes()); } v.extend_from_slice(b"---\nsecond: 2\n---\nthird: {oops\n"); v }),
+        ("yaml", { let mut v = vec![]; for i in 0..700 { v.extend_from_slice(format!("---\nid: {i}\ntext: document number {i}\n").as_bytes()); } v }),
+    ];
+    let mut bursty = vec![];
+    for (si, (f, bytes)) in streams.iter().enumerate() {
+        for explicit in [false, true] {
+            for t in ["-tj", "-ty", "-tm", "-tt"] {
+                for cutset in 0..(if ctx.thorough() { 12 } else { 3 }) {
+                    bursty.push((si, *f, bytes, explicit, t, cutset));
+                }
+            }
+        }
+    }
+    let b_acc = crate::par::run(bursty.len(), 1, |i, acc| {
+        let (si, f, bytes, explicit, t, cutset) = bursty[i];
+        let mut rng = Rng::derive(seed, 0xc13b, (i * 31 + cutset) as u64);
+        let mut argv = vec![t.to_string()];
+        if explicit {
+            argv.push(format!("-f{f}"));
+        }
+        if cutset % 2 == 1 {
+            argv.push("-".into());
+        }
+        // cut points: document boundaries found by a byte scan for '\n', plus random offsets
+        let nl: Vec<usize> = bytes.iter().enumerate().filter(|(_, b)| **b == b'\n').map(|(i, _)| i + 1).collect();
+        let mut cuts: Vec<usize> = (0..rng.range(1, 3)).map(|_| if !nl.is_empty() && rng.chance(2, 3) { *rng.pick(&nl) } else { 1 + rng.below(bytes.len().max(2) - 1) }).collect();
+        cuts.sort();
+        cuts.dedup();
+        acc.distinct(&(si, explicit, t, cuts.clone()));
+        judge_delivery(&argv, bytes, &cuts, &StdoutKind::Pipe, acc);
+    });
+    acc.merge(b_acc);
+    let rule = format!("EVERY argument vector of length 0..={} over a {}-token vocabulary (-f/-t with every name and alias in attached, detached and '=' forms, repeated, missing value, invalid name; unknown short/long options; -h --help -V --version and clustered/valued forms; '--'; '-'; translatable / malformed / undetectable / unrepresentable / missing / directory / empty paths) plus {} random vectors of length 3-6 and every ordered pair of translatable inputs x every target; each run with a pipe and (rotating) a file, a pseudo-terminal or /dev/full as stdout, stdin content rotating over translatable / malformed / empty; plus 10 multi-document streams (complete, or with a malformed / unrepresentable later document; up to 30 KiB) x named or detected source x 4 targets, trickling in on stdin in 2-4 bursts with pauses; distinct non-trivial = distinct argument vectors", exhaustive_len, v, n_random);
     let mut extra = serde_json::Map::new();
     extra.insert("argv_exhaustive_up_to_length".into(), json!(exhaustive_len));
     ev::finish(
-        Finish { ctx, level: "exploration", rule, assumptions: vec!["the harness runs as root, so an unreadable-file case cannot be produced (permission bits are ignored); missing files and directories stand in for open failures".into(), "argv is tokenised by the lexopt crate, the manual's rules are applied by the harness".into()], extra, exhaustive: false, min_distinct: 1000, must_reach: vec![("class_usage".into(), 500), ("class_help".into(), 200), ("class_run".into(), 500), ("run_expected_exit_0".into(), 100), ("run_expected_exit_1".into(), 100), ("msgpack_to_terminal_cases".into(), 10), ("stdout_pty".into(), 200), ("class_run_dev_full".into(), 50)] },
+        Finish { ctx, level: "exploration", rule, assumptions: vec!["the harness runs as root, so an unreadable-file case cannot be produced (permission bits are ignored); missing files and directories stand in for open failures".into(), "argv is tokenised by the lexopt crate, the manual's rules are applied by the harness".into()], extra, exhaustive: false, min_distinct: 1000, must_reach: vec![("class_usage".into(), 500), ("class_help".into(), 200), ("class_run".into(), 500), ("run_expected_exit_0".into(), 100), ("run_expected_exit_1".into(), 100), ("msgpack_to_terminal_cases".into(), 10), ("stdout_pty".into(), 200), ("class_run_dev_full".into(), 50), ("stdin_delivered_in_bursts".into(), 200)] },
         acc,
     )
 }
@@ -217,7 +281,8 @@ pub fn replay(v: &Value) -> i32 {
         _ => StdoutKind::Pipe,
     };
     let mut acc = Acc::default();
-    judge(&argv, &stdin, &stdout, &mut acc);
+    let cuts: Vec<usize> = c["stdin_cuts"].as_array().map(|a| a.iter().filter_map(|x| x.as_u64().map(|n| n as usize)).collect()).unwrap_or_default();
+    judge_delivery(&argv, &stdin, &cuts, &stdout, &mut acc);
     println!("argv {:?} stdout {:?} -> model class {:?}", argv, stdout, climodel::classify(&argv));
     if acc.vio_count > 0 {
         println!("VIOLATION property=C13 replay=<this file> (reproduced): {}", acc.violations[0].observed);
